@@ -7,7 +7,7 @@ class sizes.  Allocation histories are NOT decided.
 """
 import os
 from . import common
-from .common import AnalysisBroken, walk, strip, render
+from .common import AnalysisBroken, walk, strip, render, calls
 
 EXPLANATION = (
     "C10-T: from the constant-evaluated initialisers of store.c (both the compiler and the -DFOAM_RTS configuration): "
@@ -491,6 +491,110 @@ def check_asserted_ranges(rep, config):
     rep.floor("asserted values kept in integer fields (%s)" % config, n, 1)
 
 
+def check_stale_across_collection(rep, config):
+    """Allocation may collect: pagesGet, piecesGetFixed, pieceGetMixed, stoAllocInner, ... reach stoGc when the heap is full and
+    collection is automatic, and the sweep rebuilds the allocator's free lists (fixedPieces[], fixedTail[], mxmemDLLs, pgMap,
+    the heap bounds).  A local copy of one of those, taken before such a call and used after it, is the state from before the
+    collection: linking new pieces in front of a stale list head drops every piece the sweep has just put on the list.
+    Instances: every local of store.c assigned from an expression that reads one of the pointer-valued globals which the
+    collector's call tree writes.  Rule (on the CFG): no path assignment -> call that may collect -> use of the local without
+    a re-assignment in between.  (Functions of the collector itself are not instances.)"""
+    f = common.extract("store.c", config, all_trees=True, all_cfg=True)
+    funcs = {n: fn for n, fn in f.funcs.items() if "body" in fn and fn.get("file", "").endswith("store.c")}
+    if "stoGc" not in funcs:
+        raise AnalysisBroken("store.c: stoGc not found")
+    cg = {n: set(c.get("callee") for c in calls(fn["body"]) if c.get("callee") in funcs) for n, fn in funcs.items()}
+    may_collect = {"stoGc"}
+    changed = True
+    while changed:
+        changed = False
+        for n, cs in cg.items():
+            if n not in may_collect and cs & may_collect:
+                may_collect.add(n)
+                changed = True
+    from_gc, st = set(), ["stoGc"]
+    while st:
+        n = st.pop()
+        if n not in from_gc:
+            from_gc.add(n)
+            st.extend(cg.get(n, ()))
+    gl = set(f.vars)
+    rebuilt = set()
+    for n in from_gc:
+        for x in walk(funcs[n]["body"]):
+            if x["k"] in ("BinaryOperator", "CompoundAssignOperator") and x["op"].endswith("=") and x["op"] not in ("==", "!=", "<=", ">="):
+                l = strip(x["c"][0])
+                while l is not None and l["k"] == "ArraySubscriptExpr":
+                    l = strip(l["c"][0])
+                if l is not None and l["k"] == "DeclRefExpr" and l["n"] in gl:
+                    t = f.vars[l["n"]].get("t") or ""
+                    if "*" in t:
+                        rebuilt.add(l["n"])
+    if not {"fixedPieces"} <= rebuilt:
+        raise AnalysisBroken("store.c [%s]: the sweep no longer rebuilds fixedPieces[] (%s): the stale-copy rule must be re-derived"
+                             % (config, sorted(rebuilt)))
+    n_inst = 0
+    for name, fn in sorted(funcs.items()):
+        if name.startswith("stoGc"):
+            continue
+        lhs_ids = set()
+        cands = []
+        for x in walk(fn["body"]):
+            if x["k"] == "BinaryOperator" and x["op"] == "=":
+                l = strip(x["c"][0])
+                if l is not None and l["k"] == "DeclRefExpr":
+                    lhs_ids.add(l["id"])
+                    if l["n"] not in gl:
+                        cands.append((l["n"], x["c"][1], x))
+            elif x["k"] == "DeclStmt":
+                for d in x.get("decls", []):
+                    if d.get("init") is not None:
+                        cands.append((d["n"], d["init"], d["init"]))
+        cfg = None
+        for v, rhs, node in cands:
+            gs = sorted(set(y["n"] for y in walk(rhs) if y["k"] == "DeclRefExpr" and y["n"] in rebuilt))
+            if not gs:
+                continue
+            # `p = g; ... p = call-that-may-collect();` : the value of a call is not a copy
+            if any(y["k"] == "CallExpr" and y.get("callee") in may_collect for y in walk(rhs)):
+                continue
+            n_inst += 1
+            if cfg is None:
+                cfg = common.CFG(fn)
+            ev = cfg.events(lambda e, node=node: e.get("id") == node["id"])
+            if not ev and not cfg.events(lambda e: e["k"] == "CallExpr" and e.get("callee") in may_collect):
+                rep.ok("T-stale", "no-stale-copy-across-collection:%s:%s:%s" % (name, v, config), nontrivial=False)
+                continue               # nothing in this function can collect
+            if not ev:
+                raise AnalysisBroken("store.c [%s] %s: the copy `%s = %s` is not an element of the CFG" % (config, name, v, render(rhs)[:40]))
+            b, i, _ = ev[0]
+
+            def reassign(e, v=v):
+                if e["k"] == "BinaryOperator" and e["op"] == "=":
+                    l = strip(e["c"][0])
+                    return l is not None and l["k"] == "DeclRefExpr" and l["n"] == v
+                return False
+            hit = None
+            for cb, ci, cn in cfg.events(lambda e: e["k"] == "CallExpr" and e.get("callee") in may_collect):
+                if cfg.path_avoiding(b, lambda e, cn=cn: e.get("id") == cn["id"], reassign, src_idx=i) is None:
+                    continue
+                if cfg.path_avoiding(cb, lambda e, v=v: e["k"] == "DeclRefExpr" and e["n"] == v and e.get("id") not in lhs_ids,
+                                     reassign, src_idx=ci) is not None:
+                    hit = cn
+                    break
+            key = "no-stale-copy-across-collection:%s:%s" % (name, v)
+            if hit is None:
+                rep.ok("T-stale", key + ":" + config, sample={"copy": "%s = %s" % (v, render(rhs)[:40])} if n_inst <= 2 else None)
+            else:
+                rep.violation("T-stale", key, "store.c:%d (%s) [%s]" % (node["l"], name, config),
+                              "`%s` is read from %s before the call of %s (line %d), which can start a collection when the heap is "
+                              "full, and is used after it: the sweep rebuilds %s, so the copy is the state from before the "
+                              "collection (linking to a stale list head loses every piece the sweep has just reclaimed; the "
+                              "allocator's audit fails and the storage is not reused)"
+                              % (v, ", ".join(gs), hit.get("callee"), hit["l"], ", ".join(gs)))
+    rep.floor("local copies of collector-rebuilt allocator state (%s)" % config, n_inst, 8)
+
+
 def run(tier):
     rep = common.Report("C10", tier, EXPLANATION)
     for config in ("compiler", "runtime"):
@@ -501,6 +605,7 @@ def run(tier):
         check_btree_handles(rep, config)
         check_sweep_marks(rep, config)
         check_asserted_ranges(rep, config)
+        check_stale_across_collection(rep, config)
     rep.floor("C10 table obligations", rep.obligations, 60)
     rep.assumptions.append("allocation, free, resize and collection histories are not analysed")
     return rep
